@@ -34,17 +34,15 @@ Proof.
   - intros [H1 H2]. exists (fst q). destruct q; simpl in *; subst; auto.
 Qed.
 
-Lemma del1_In g t s q :
-  In q (quads (del1 g t s)) <->
-  In q (quads s) /\ ~ (fst q = t /\ match ctxopt g with Some c => snd q = c | None => True end).
+Lemma del1_In c t s q :
+  In q (quads (del1 c t s)) <-> In q (quads s) /\ ~ (fst q = t /\ snd q = c).
 Proof.
   unfold del1; simpl. rewrite q_remove_In. unfold qsel.
   assert (M : matches (pat_of t) (fst q) = true <-> t = fst q) by apply matches_pat_of.
   destruct (matches (pat_of t) (fst q)) eqn:E; simpl.
-  - assert (t = fst q) by (apply M; auto). destruct (ctxopt g) as [c|].
-    + rewrite N.eqb_neq. split; intros [H1 H2]; split; auto.
-      intros [_ H3]. congruence.
-    + split; intros [H1 H2]; [discriminate|]. exfalso; apply H2; split; auto.
+  - assert (t = fst q) by (apply M; auto).
+    rewrite N.eqb_neq. split; intros [H1 H2]; split; auto.
+    intros [_ H3]. congruence.
   - split; intros [H1 H2]; split; auto. intros [H3 _]. assert (false = true); [|discriminate].
     apply M. auto.
 Qed.
@@ -61,7 +59,7 @@ Qed.
 Lemma del_quads_known l : forall s, known (del_quads l s) = known s.
 Proof. unfold del_quads. induction l as [|x r IH]; intros s; simpl; auto. rewrite IH. reflexivity. Qed.
 
-Lemma g_isub_eq c ts s : g_isub (GCtx c) ts s = del_quads (to_graph c ts) s.
+Lemma g_isub_eq c ts s : g_isub c ts s = del_quads (to_graph c ts) s.
 Proof.
   unfold g_isub, del_quads, to_graph. revert s. induction ts as [|t r IH]; intros s; simpl; auto.
 Qed.
@@ -72,7 +70,7 @@ Proof. unfold del_quads. apply fold_left_app. Qed.
 Lemma add_quads_app l1 l2 s : add_quads (l1 ++ l2) s = add_quads l2 (add_quads l1 s).
 Proof. unfold add_quads. apply fold_left_app. Qed.
 
-Lemma g_clear_In c s q : In q (quads (g_clear (GCtx c) s)) <-> In q (quads s) /\ snd q <> c.
+Lemma g_clear_In c s q : In q (quads (g_clear c s)) <-> In q (quads s) /\ snd q <> c.
 Proof.
   unfold g_clear; simpl. rewrite q_remove_In. unfold qsel; simpl.
   destruct (fst q) as [[x y] z]. simpl. rewrite N.eqb_neq.
@@ -121,12 +119,12 @@ Qed.
 Lemma kinv_del_quads l s : kinv s -> kinv (del_quads l s).
 Proof. intros H q. rewrite del_quads_In, del_quads_known. intros [Hq _]. auto. Qed.
 
-Lemma kinv_clear c s : kinv s -> kinv (g_clear (GCtx c) s).
+Lemma kinv_clear c s : kinv s -> kinv (g_clear c s).
 Proof. intros H q Hq. apply g_clear_In in Hq. simpl. apply H. tauto. Qed.
 
-Lemma kinv_remove_graph c s : kinv s -> kinv (forget c (g_clear (GCtx c) s)).
+Lemma kinv_remove_graph c s : kinv s -> kinv (remove_graph c s).
 Proof.
-  intros H q Hq. unfold forget in *; simpl in *. change (In q (quads (g_clear (GCtx c) s))) in Hq.
+  intros H q Hq. unfold remove_graph, forget in *; simpl in *. change (In q (quads (g_clear c s))) in Hq.
   apply g_clear_In in Hq. apply (srem_In N.eqb N.eqb_spec). split; [apply H|]; tauto.
 Qed.
 
